@@ -110,52 +110,6 @@ Definition config_of (x : sx) : config :=
 
 (* ---------- a JSON tree as a consumer sees it ---------- *)
 
-Fixpoint str_ltb (a b : str) : bool :=
-  match a, b with
-  | [], [] => false
-  | [], _ :: _ => true
-  | _ :: _, [] => false
-  | x :: a', y :: b' => (x <? y)%N || ((x =? y)%N && str_ltb a' b')
-  end.
-
-(* members sorted by name; per name the values in document order *)
-Fixpoint ins_member (k : str) (v : json) (m : list (str * list json)) : list (str * list json) :=
-  match m with
-  | [] => [(k, [v])]
-  | (k', vs) :: r =>
-      if str_eqb k k' then (k', vs ++ [v]) :: r
-      else if str_ltb k k' then (k, [v]) :: m
-      else (k', vs) :: ins_member k v r
-  end.
-
-Definition group_members (m : list (str * json)) : list (str * list json) :=
-  fold_left (fun acc kv => ins_member (fst kv) (snd kv) acc) m [].
-
-(* grouped = false: the last of several members with one name wins (serde_json, and most readers);
-   grouped = true: several values of one name are one array (what JSON-LD wants) *)
-Fixpoint norm (grouped : bool) (j : json) : json :=
-  match j with
-  | JArr l => JArr (map (norm grouped) l)
-  | JObj m =>
-      JObj (map (fun kvs =>
-                   (fst kvs,
-                    match snd kvs with
-                    | [v] => v
-                    | vs => if grouped then JArr vs else last vs JNull
-                    end))
-                (group_members (map (fun kv => (fst kv, norm grouped (snd kv))) m)))
-  | _ => j
-  end.
-
-Fixpoint has_dup_keys (j : json) : bool :=
-  match j with
-  | JArr l => existsb has_dup_keys l
-  | JObj m =>
-      existsb (fun kv => has_dup_keys (snd kv)) m
-      || existsb (fun kvs => match snd kvs with [_] => false | _ => true end) (group_members m)
-  | _ => false
-  end.
-
 Fixpoint tree_sx (j : json) : sx :=
   match j with
   | JNull => L [A 0]
@@ -210,16 +164,6 @@ Definition same_tokens (impl model : option str) : bool :=
   end.
 
 (* ---------- classes of known findings ---------- *)
-
-Definition Known_C17_nonfinite (av : annv) : bool :=
-  negb (forallb (fun d => value_finite (d_val d)) (a_data av)).
-Definition Known_C17_config_chars (c : config) : bool := negb (cfg_plain c).
-Definition Known_C17_nested_unexportable (av : annv) : bool :=
-  accepted av && negb (no_nested_unexportable (a_target av)).
-Definition Known_C17_duplicate_names (st : storev) (c : config) (a : nat) : bool :=
-  match export_ast st c a with Some j => has_dup_keys j | None => false end.
-Definition Known_C17_anonymous_target (st : storev) (av : annv) : bool :=
-  negb (targets_named st (a_target av)).
 
 Definition classify (st : storev) (c : config) (a : nat) (av : annv) : nat :=
   if Known_C17_nonfinite av then 1
